@@ -326,6 +326,23 @@ pub fn space(thorough: bool) -> Vec<Prog> {
             }
         }
     }
+    // module-scope variables without a binding (private / workgroup / push constant) before and between resources
+    for a in &reps {
+        for b in &reps {
+            for (ui, unbound) in ["var<private> free_p: vec4<f32>;", "var<workgroup> free_w: array<u32, 4>;", "var<push_constant> free_pc: vec4<f32>;"].iter().enumerate() {
+                for pos in 0..2 {
+                    let stages: Vec<Stage> = a.stages.iter().copied().filter(|s| b.stages.contains(s)).collect();
+                    let mut p = build(&[(a, 0, 0), (b, 1, 0)], &stages, 0, format!("unbound{ui}@{pos}|{}|{}", a.id, b.id));
+                    // insert the declaration before the first / before the second resource variable
+                    let needle = if pos == 0 { "@group(0) @binding(0)" } else { "@group(1) @binding(0)" };
+                    if let Some(at) = p.src.find(needle) {
+                        p.src.insert_str(at, &format!("{unbound}\n"));
+                    }
+                    out.push(p);
+                }
+            }
+        }
+    }
     // visibility is part of the interface check: resources reached through helpers, with the call and the
     // access at every placement context and in every call form (C03's placement space), judged by check_stage
     let (placed, _) = crate::c03::space_b(thorough);
